@@ -27,7 +27,8 @@ HIPRAX_INPUTS = {
 }
 HIPRAX_OUTPUTS = ['Reservoir Volume (reservoir)', 'Stored Heat (reservoir)', 'Stored Heat (rock)', 'Stored Heat (fluid)',
                   'Available Heat (reservoir)', 'Producible Heat (reservoir)', 'Producible Electricity (reservoir)',
-                  'Recovery Factor (reservoir)', 'Specific Enthalpy (fluid)', 'Reservoir Pressure', 'Reservoir Depth']
+                  'Recovery Factor (reservoir)', 'Specific Enthalpy (fluid)', 'Reservoir Pressure', 'Reservoir Depth',
+                  'Producible Electricity/Unit Area (reservoir)']
 
 
 def hiprax_base():
